@@ -30,3 +30,10 @@ func init() {
 		Real:  clusterReal, Stub: clusterStub,
 		Assume: []string{"one volume per layout (growth count 1), so the layout's map iteration order cannot matter", "writability is compared after three heartbeat pulses (bounded liveness), not at the instant the round returns"}}
 }
+
+func init() {
+	props["C40"] = &propCfg{Engine: "cluster", Variants: []string{""}, Quick: 800, Thorough: 24000, Chunk: 20, QuickWall: 110, ThorWall: 1500,
+		Rule:  "each run = real master + 2-3 real volume servers, one volume with replication 001/010/002/011/020; 3-10 uploads (text that the client library gzips, incompressible bytes, already-compressed names, no name/mime, json; pairs; ttl; client ts; manifest flag), overwrites and deletes sent to the primary with the real client library; every HTTP POST/DELETE parks on the simulated network and the plan picks the release order and, for replica requests in odd runs, drop / lost response / delay per message (the library's retries run on the fake clock); after every operation reported successful each replica is asked over HTTP (status, headers, decoded body) and over gRPC (needle cookie, stored last-modified, checksum, ttl) and all answers must be equal; non-trivial = a replica fault fired or two messages were pending at once; distinct = distinct abstract traces",
+		Real:  clusterReal, Stub: clusterStub,
+		Assume: []string{"nothing is demanded for operations the client saw fail", "one bubble clock: all servers stamp with the same clock"}}
+}
